@@ -5,7 +5,7 @@ use crate::engine::{generated, must, Stats, SubCheck, Tier};
 use crate::gens::{self, RawH};
 use proptest::prelude::*;
 use serde::{Deserialize, Serialize};
-use ssdeep::{FuzzyHash, FuzzyHashCompareTarget, LongFuzzyHash};
+use ssdeep::{FuzzyHash, FuzzyHashCompareTarget, FuzzyHashData, LongFuzzyHash};
 use std::collections::BTreeSet;
 
 #[derive(Debug, Clone, Serialize, Deserialize)]
@@ -117,8 +117,24 @@ macro_rules! laws {
         if far {
             ensure_eq!(sab, 0, "{} far block sizes must score 0 [{} vs {}]", tag, a.text(), b.text());
         }
-        let ta = must("FuzzyHashCompareTarget::from", || FuzzyHashCompareTarget::from(ha))?;
-        let tb = must("FuzzyHashCompareTarget::from", || FuzzyHashCompareTarget::from(hb))?;
+        // comparison targets that held another hash before (empty block hash 1, the partner's symbols as
+        // block hash 2): clustering code re-uses one target for many hashes
+        let mut prev = *hb;
+        prev.normalize_in_place();
+        let prev = {
+            let mut q = prev.to_raw_form();
+            q = must("new_from_internals_near_raw", || {
+                let s = if b.bh1.len() >= b.bh2.len() { &b.bh1 } else { &b.bh2 };
+                let mut s2 = s.clone();
+                s2.truncate(q.block_hash_2_as_array().len());
+                FuzzyHashData::new_from_internals_near_raw(a.log, &[], &s2)
+            })?;
+            q.normalize()
+        };
+        let mut ta = must("FuzzyHashCompareTarget::from", || FuzzyHashCompareTarget::from(&prev))?;
+        must("init_from", || ta.init_from(ha))?;
+        let mut tb = must("FuzzyHashCompareTarget::from", || FuzzyHashCompareTarget::from(&prev))?;
+        must("init_from", || tb.init_from(hb))?;
         let cab = must("is_comparison_candidate", || ta.is_comparison_candidate(hb))?;
         let cba = must("is_comparison_candidate", || tb.is_comparison_candidate(ha))?;
         ensure_eq!(cab, cba, "{} candidate symmetry [{} vs {}]", tag, a.text(), b.text());
